@@ -861,7 +861,7 @@ class Gen:
         if k == 10:
             return ("switch1", self.expr(1), self.stmt(depth - 1, True, in_loop))
         if k == 8:
-            return ("pragma", r.choice(["once", "omp parallel", "pack(1)", ""]))
+            return ("pragma", r.choice(["once", "omp parallel", "pack(1)", "", "omp for  ", "unroll(2)\t", "region x \t "]))
         if k == 9:
             e = self.expr(1, False)
             if self.avoid_known and self.level(e) < 3:
